@@ -1,6 +1,7 @@
 (* Pinned statements of C10 (generated once by tools/mkpins.py from coq/props/C10.v, then committed). *)
 From DV Require Import Model.Base Model.NameCheck Model.Parser Model.Header Model.Readers Model.Uncompress
-  Model.Mutate Spec.PlainSpec Proofs.Hoare Proofs.HeaderBits Proofs.InsertLemmas Proofs.PlainWf Proofs.InsertFail Proofs.InsertSpec Proofs.HeaderInv Spec.RecordSpec Proofs.WalkSkip Proofs.ReplaceInv Proofs.Totality props.C10.
+  Model.Mutate Spec.PlainSpec Proofs.Hoare Proofs.HeaderBits Proofs.InsertLemmas Proofs.PlainWf Proofs.InsertFail Proofs.InsertSpec Proofs.HeaderInv Spec.RecordSpec Proofs.WalkSkip Proofs.ReplaceInv Proofs.Totality
+  Model.Renamer Proofs.FailAtomic props.C10.
 Check (C10_insert_bound : forall sec rr s s',
   m_insert_rr sec rr s = (s', Ok tt) -> (N.of_nat (length (pp_packet (fst s'))) <= 8192)%N).
 Print Assumptions C10_insert_bound.
@@ -47,3 +48,8 @@ Check (C10_set_ttl_succeeds : forall v it t qls qt lA lN lR r x,
 Print Assumptions C10_set_ttl_succeeds.
 Check (C10_refused_name_changes_nothing : forall nm s e, check_compressed_name nm 0 = Err e -> m_set_raw_name nm s = (s, Err e)).
 Print Assumptions C10_refused_name_changes_nothing.
+Check (C10_failed_rename_changes_nothing : forall target source sfx st st' e,
+  m_rename target source sfx st = (st', Err e) -> st' = st).
+Print Assumptions C10_failed_rename_changes_nothing.
+Check (C10_failed_recompute_changes_nothing : forall st st' e, m_recompute st = (st', Err e) -> st' = st).
+Print Assumptions C10_failed_recompute_changes_nothing.
